@@ -180,7 +180,7 @@ theorem store_only_both (i : VIn) :
     cases hr : reasonOf i (itemDomains i.declared) with
     | none => simp
     | some r =>
-      cases hk : (i.sign.crt && i.sign.key) <;> simp [hk] <;> simpa using hk
+      cases hk : (i.sign.crt && i.sign.key) <;> simp <;> simpa using hk
   · simp [ha]
 
 
@@ -271,14 +271,16 @@ example : coversOne ["*", "dev", "local"] ["other", "s3", "dev", "local"] = fals
 example : coversOne ["*", "dev", "local"] ["dev", "local"] = false := by decide
 example : coversOne ["*", "dev", "local"] ["*", "dev", "local"] = true := by decide
 example : coversOne ["a", "dev", "local"] ["*", "dev", "local"] = false := by decide
-example : (notify { acct := true, secret := .cert 10 [["a", "x"]], now := 3, window := 7, declared := [["a", "x"]],
-    sign := ⟨true, true, false⟩, setErr := false }).signed = none := by decide
-example : (notify { acct := true, secret := .cert 10 [["a", "x"]], now := 4, window := 7, declared := [["a", "x"]],
-    sign := ⟨true, true, false⟩, setErr := false }) =
-    { got := true, signed := some [["a", "x"]], written := true, err := false, metric := some (.expiring, true) } := by decide
-example : (notify { acct := true, secret := .cert 10 [["a", "x"]], now := 0, window := 7, declared := [["a", "x"], ["b", "x"]],
-    sign := ⟨true, false, true⟩, setErr := false }) =
-    { got := true, signed := some [["a", "x"], ["b", "x"]], written := false, err := true, metric := some (.outdated, false) } := by decide
+def exIn (now : Int) (declared : List Name) (sign : SignRes) : VIn :=
+  { acct := true, secret := .cert 10 [["a", "x"]], now := now, window := 7, declared := declared,
+    sign := sign, setErr := false }
+example : (notify (exIn 3 [["a", "x"]] ⟨true, true, false⟩)).signed = none := by decide
+example : notify (exIn 4 [["a", "x"]] ⟨true, true, false⟩) =
+    { got := true, signed := some [["a", "x"]], written := true, err := false,
+      metric := some (.expiring, true) } := by decide
+example : notify (exIn 0 [["a", "x"], ["b", "x"]] ⟨true, false, true⟩) =
+    { got := true, signed := some [["a", "x"], ["b", "x"]], written := false, err := true,
+      metric := some (.outdated, false) } := by decide
 
 /-! ## (b) the queue follows the storages -/
 
@@ -432,6 +434,13 @@ def wfHist : Storages → List Cycle → Prop
   | _, [] => True
   | s, c :: cs => c.wf s ∧ wfHist (cycle s c).1 cs
 
+def decWfHist : (s : Storages) → (cs : List Cycle) → Decidable (wfHist s cs)
+  | _, [] => isTrue trivial
+  | s, c :: cs =>
+    have := decWfHist (cycle s c).1 cs
+    show Decidable (c.wf s ∧ wfHist (cycle s c).1 cs) from inferInstance
+instance (s : Storages) (cs : List Cycle) : Decidable (wfHist s cs) := decWfHist s cs
+
 /- Full-strength statement (does NOT hold for full syncs, see `full_sync_vanished_not_removed`):
 
    theorem queue_follows : ... → Follows' s cs (runCycles s cs).2
@@ -532,8 +541,8 @@ theorem conv_follows_if_wf (s : ConvSt) (c : ConvCycle) (hadd : s.st.add = []) (
    uses reaches `Acquire` of an existing, un-removed storage and extends it in place; the storage is
    not in `itemsAdd`, nothing is enqueued until the next full sync / periodic check. -/
 
-def wA : World := [⟨"i1", "r1.x", true, "", [⟨"s1", ["r1.x"]⟩]⟩]
-def wB : World := wA ++ [⟨"i2", "r2.x", true, "", [⟨"s1", ["r2.x"]⟩]⟩]
+def wA : World := [{ name := "i1", rule := "r1.x", acme := true, chain := "", tls := [⟨"s1", ["r1.x"]⟩] }]
+def wB : World := wA ++ [{ name := "i2", rule := "r2.x", acme := true, chain := "", tls := [⟨"s1", ["r2.x"]⟩] }]
 
 /-- counter-example: a second ingress sharing the TLS secret is added by a partial sync -/
 theorem inplace_change_not_enqueued :
@@ -544,9 +553,18 @@ theorem inplace_change_not_enqueued :
     (runConv {} h).2 = [[.add "s1" ⟨"", ["r1.x"]⟩], []] ∧
     oracleConv [] h (runConv {} h).2 = some "changed-storage-not-enqueued" := by decide +kernel
 
-/-- the same two worlds through a full sync: enqueued (non-vacuity of the oracle) -/
-example : oracleConv [] [⟨true, true, true, wA⟩, ⟨true, true, true, wB⟩]
-    (runConv {} [⟨true, true, true, wA⟩, ⟨true, true, true, wB⟩]).2 = none := by decide +kernel
+/-- the same two worlds through a full sync: the new item is enqueued, but the item of the old
+domain set stays in the queue (finding 1 again) -/
+example : (runConv {} [⟨true, true, true, wA⟩, ⟨true, true, true, wB⟩]).2 =
+      [[.add "s1" ⟨"", ["r1.x"]⟩], [.add "s1" ⟨"", ["r1.x", "r2.x"]⟩]] ∧
+    oracleConv [] [⟨true, true, true, wA⟩, ⟨true, true, true, wB⟩]
+      (runConv {} [⟨true, true, true, wA⟩, ⟨true, true, true, wB⟩]).2 =
+      some "full-sync-vanished-storage-not-removed" := by decide +kernel
+
+/-- non-vacuity of the oracle: a history it accepts -/
+example : oracleConv [] [⟨true, true, true, wB⟩, ⟨false, true, true, wA⟩, ⟨false, false, true, wB⟩]
+    (runConv {} [⟨true, true, true, wB⟩, ⟨false, true, true, wA⟩, ⟨false, false, true, wB⟩]).2 = none := by
+  decide +kernel
 
 /-- deleting the sharing ingress again is tracked: old item removed, new one added -/
 example : (runConv {} [⟨true, true, true, wB⟩, ⟨false, true, true, wA⟩]).2 =
@@ -576,6 +594,7 @@ theorem facts_c17 :
     Facts.c17AcmeUpdateCalls = [".Storages", "i.config.AcmeData", "le.IsLeader", "i.acmeEnsureConfig", "i.config.AcmeData",
       "storages.BuildAcmeStoragesAdd", "i.acmeAddStorage", "storages.BuildAcmeStoragesDel", "i.acmeRemoveStorage",
       "storages.Updated", "i.logger.InfoV", "le.LeaderName"] ∧
-    Facts.c17PreTrackContexts = ["convtypes.ResourceHABackend", "ctx", "convtypes.ResourceHABackend"] := by decide
+    Facts.c17PreTrackContexts = ["convtypes.ResourceHABackend", "ctx", "convtypes.ResourceHABackend"] := 
+  ⟨rfl, rfl, rfl, rfl, rfl, rfl, rfl, rfl, rfl, rfl, rfl, rfl⟩
 
 end HapVerif.C17
